@@ -145,25 +145,29 @@ pub struct Profile {
     pub skips: bool,
     /// probability (x/16) that a chunk size is huge (usize::MAX, MAX/2, MAX-7)
     pub huge16: u32,
+    /// probability (x/16) that a one-shot chunk requests zero elements
+    pub zero16: u32,
 }
 
 pub fn profile(name: &str) -> Profile {
     //            next nid chunk buf vals ids fe efe fold len more skip
     let base = [6, 6, 6, 5, 2, 2, 1, 1, 1, 2, 2, 0];
     match name {
-        "mixed" => Profile { name: "mixed", w: base, drain16: 10, post16: 8, max_pre: 6, skips: false, huge16: 0 },
-        "pulls" => Profile { name: "pulls", w: [6, 6, 7, 6, 3, 3, 2, 2, 2, 0, 0, 0], drain16: 14, post16: 4, max_pre: 5, skips: false, huge16: 0 },
-        "index" => Profile { name: "index", w: [1, 8, 6, 6, 0, 5, 0, 4, 0, 0, 0, 0], drain16: 12, post16: 2, max_pre: 6, skips: false, huge16: 0 },
-        "chunks" => Profile { name: "chunks", w: [2, 2, 10, 10, 0, 0, 1, 1, 1, 0, 0, 0], drain16: 10, post16: 4, max_pre: 7, skips: false, huge16: 2 },
-        "order" => Profile { name: "order", w: [6, 8, 6, 5, 2, 2, 0, 0, 0, 1, 1, 0], drain16: 6, post16: 3, max_pre: 8, skips: false, huge16: 2 },
-        "pastend" => Profile { name: "pastend", w: [6, 6, 5, 5, 2, 2, 1, 1, 1, 3, 3, 0], drain16: 14, post16: 16, max_pre: 3, skips: false, huge16: 0 },
-        "skip" => Profile { name: "skip", w: [6, 6, 5, 5, 2, 2, 1, 1, 1, 3, 3, 5], drain16: 6, post16: 16, max_pre: 6, skips: true, huge16: 0 },
-        "len" => Profile { name: "len", w: [5, 5, 5, 4, 1, 1, 1, 1, 0, 8, 8, 1], drain16: 8, post16: 10, max_pre: 8, skips: true, huge16: 0 },
-        "foreach" => Profile { name: "foreach", w: [2, 2, 2, 2, 1, 1, 6, 6, 6, 0, 0, 0], drain16: 8, post16: 6, max_pre: 3, skips: false, huge16: 0 },
-        "iterwait" => Profile { name: "iterwait", w: [6, 6, 6, 6, 2, 2, 1, 1, 1, 1, 1, 2], drain16: 8, post16: 6, max_pre: 6, skips: true, huge16: 0 },
-        "skiprace" => Profile { name: "skiprace", w: [1, 1, 10, 10, 0, 0, 1, 1, 1, 1, 1, 6], drain16: 4, post16: 8, max_pre: 5, skips: true, huge16: 0 },
-        "race" => Profile { name: "race", w: [6, 3, 3, 3, 1, 1, 1, 1, 0, 2, 2, 1], drain16: 16, post16: 2, max_pre: 2, skips: true, huge16: 0 },
-        "drops" => Profile { name: "drops", w: [5, 5, 8, 8, 1, 1, 1, 1, 1, 0, 0, 2], drain16: 5, post16: 4, max_pre: 6, skips: true, huge16: 0 },
+        "mixed" => Profile { name: "mixed", w: base, drain16: 10, post16: 8, max_pre: 6, skips: false, huge16: 0, zero16: 0 },
+        "pulls" => Profile { name: "pulls", w: [6, 6, 7, 6, 3, 3, 2, 2, 2, 0, 0, 0], drain16: 14, post16: 4, max_pre: 5, skips: false, huge16: 0, zero16: 0 },
+        "index" => Profile { name: "index", w: [1, 8, 6, 6, 0, 5, 0, 4, 0, 0, 0, 0], drain16: 12, post16: 2, max_pre: 6, skips: false, huge16: 0, zero16: 0 },
+        "chunks" => Profile { name: "chunks", w: [2, 2, 10, 10, 0, 0, 1, 1, 1, 0, 0, 0], drain16: 10, post16: 4, max_pre: 7, skips: false, huge16: 2, zero16: 0 },
+        "order" => Profile { name: "order", w: [6, 8, 6, 5, 2, 2, 0, 0, 0, 1, 1, 0], drain16: 6, post16: 3, max_pre: 8, skips: false, huge16: 2, zero16: 0 },
+        "pastend" => Profile { name: "pastend", w: [6, 6, 5, 5, 2, 2, 1, 1, 1, 3, 3, 0], drain16: 14, post16: 16, max_pre: 3, skips: false, huge16: 0, zero16: 0 },
+        "skip" => Profile { name: "skip", w: [6, 6, 5, 5, 2, 2, 1, 1, 1, 3, 3, 5], drain16: 6, post16: 16, max_pre: 6, skips: true, huge16: 0, zero16: 0 },
+        "len" => Profile { name: "len", w: [5, 5, 5, 4, 1, 1, 1, 1, 0, 8, 8, 1], drain16: 8, post16: 10, max_pre: 8, skips: true, huge16: 0, zero16: 0 },
+        "foreach" => Profile { name: "foreach", w: [2, 2, 2, 2, 1, 1, 6, 6, 6, 0, 0, 0], drain16: 8, post16: 6, max_pre: 3, skips: false, huge16: 0, zero16: 0 },
+        "iterwait" => Profile { name: "iterwait", w: [6, 6, 6, 6, 2, 2, 1, 1, 1, 1, 1, 2], drain16: 8, post16: 6, max_pre: 6, skips: true, huge16: 0, zero16: 0 },
+        "zero" => Profile { name: "zero", w: [5, 5, 8, 4, 1, 1, 1, 1, 0, 5, 5, 1], drain16: 6, post16: 6, max_pre: 8, skips: true, huge16: 1, zero16: 4 },
+        "zeroeach" => Profile { name: "zeroeach", w: [2, 2, 6, 2, 1, 1, 5, 5, 5, 1, 1, 0], drain16: 8, post16: 4, max_pre: 4, skips: false, huge16: 0, zero16: 6 },
+        "skiprace" => Profile { name: "skiprace", w: [1, 1, 10, 10, 0, 0, 1, 1, 1, 1, 1, 6], drain16: 4, post16: 8, max_pre: 5, skips: true, huge16: 0, zero16: 0 },
+        "race" => Profile { name: "race", w: [6, 3, 3, 3, 1, 1, 1, 1, 0, 2, 2, 1], drain16: 16, post16: 2, max_pre: 2, skips: true, huge16: 0, zero16: 0 },
+        "drops" => Profile { name: "drops", w: [5, 5, 8, 8, 1, 1, 1, 1, 1, 0, 0, 2], drain16: 5, post16: 4, max_pre: 6, skips: true, huge16: 0, zero16: 0 },
         other => panic!("unknown profile {other}"),
     }
 }
@@ -207,7 +211,7 @@ pub fn gen_op(rng: &mut Rng, p: &Profile, len: usize, pulls_only: bool, wrapped:
         0 => Op::Next,
         1 => Op::NextIdVal,
         2 => {
-            let n = chunk_size(rng, len, p.huge16);
+            let n = if p.zero16 > 0 && rng.chance(p.zero16, 16) { 0 } else { chunk_size(rng, len, p.huge16) };
             Op::Chunk { n, consume: consume_count(rng, n) }
         }
         3 => {
@@ -238,6 +242,9 @@ pub fn gen_script(rng: &mut Rng, p: &Profile, len: usize, wrapped: bool) -> Scri
             // a drain loop makes progress with every iteration: pull at least one item
             if let Op::Buffered { pulls, .. } = &mut op {
                 *pulls = (*pulls).max(1);
+            }
+            if let Op::Chunk { n, .. } = &mut op {
+                *n = (*n).max(1);
             }
             s.drain.push(op);
         }
@@ -289,6 +296,8 @@ pub enum Res {
     /// 0 = No, 1 = Maybe, 2 = Yes(n)
     More(u8, usize),
     Skip,
+    /// `next_chunk(0)` returned None: no statement about the end
+    Empty,
     /// the call panicked: class = "injected:<where>" or the message of an unexpected panic
     Panic { class: String, items: Vec<Item> },
 }
@@ -339,6 +348,7 @@ impl Rec {
                 _ => J::S(format!("Yes({n})")),
             }),
             Res::Skip => j.put("result", J::s("skipped")),
+            Res::Empty => j.put("result", J::s("nothing requested")),
             Res::Panic { class, items: it } => {
                 j.put("panic", J::s(class));
                 j.put("items(idx,pos)", items(it));
